@@ -176,6 +176,21 @@ func c11AddNodeMentions(n ast.Node) bool {
 		s == "options.processor==nil" || s == "options.processor.statePreHandler==nil" || s == "options.processor.statePostHandler==nil"
 }
 
+// does the node talk about the state handlers of the node's options
+func c11AddNodeMentionsHandlers(n ast.Node) bool {
+	found := false
+	ast.Inspect(n, func(x ast.Node) bool {
+		if id, ok := x.(*ast.Ident); ok {
+			switch id.Name {
+			case "statePreHandler", "statePostHandler", "processor":
+				found = true
+			}
+		}
+		return !found
+	})
+	return found
+}
+
 var c11AddNodeFresh int
 
 // translate a statement list with fall-through: k is the translation of what follows
@@ -236,7 +251,14 @@ func c11ExtractStateAddNode(repo string) (string, string, error) {
 		return "", "", fmt.Errorf("method graph.addNode not found")
 	}
 	c11AddNodeFresh = 0
-	body, err := c11AddNodeStmts(fn.Body.List, "false", "  ")
+	// helpers of graph.go that carry some of the checks (`if err := g.checkX(…); err != nil { return err }`)
+	// are inlined; a tagless switch is an if / else-if chain
+	prepared, _, err := c11Prepare(repo, []string{"compose", "graph.go"}, fn,
+		func(n ast.Node) bool { return c11AddNodeMentions(n) || c11AddNodeMentionsHandlers(n) }, c11NormOpts{})
+	if err != nil {
+		return "", "", fmt.Errorf("addNode: %v", err)
+	}
+	body, err := c11AddNodeStmts(prepared, "false", "  ")
 	if err != nil {
 		return "", "", err
 	}
